@@ -255,6 +255,9 @@ pub fn parse_args(prop: &str) -> Args {
             x => panic!("unknown argument {}", x),
         }
     }
-    std::panic::set_hook(Box::new(|_| {}));
+    // panics inside cw-multi-test are outcomes (caught by `catch`); keep them quiet unless asked
+    if std::env::var("VERIF_SHOW_PANICS").is_err() {
+        std::panic::set_hook(Box::new(|_| {}));
+    }
     args
 }
